@@ -356,6 +356,22 @@ pub trait IndexedParallelIterator: ParallelIterator {
     }
 }
 
+/// `par_extend` for the standard collections.
+pub trait ParallelExtend<T: Send> {
+    fn par_extend<I>(&mut self, par_iter: I)
+    where
+        I: IntoParallelIterator<Item = T>;
+}
+impl<T: Send, C: Extend<T>> ParallelExtend<T> for C {
+    fn par_extend<I>(&mut self, par_iter: I)
+    where
+        I: IntoParallelIterator<Item = T>,
+    {
+        let p = par_iter.into_par_iter();
+        self.extend(collect_vec(&p));
+    }
+}
+
 pub trait FromParallelIterator<T: Send> {
     fn from_par_iter<I>(par_iter: I) -> Self
     where
